@@ -115,7 +115,10 @@ OkStep(st, e) ==
          V(TRUE, WithHd(st, [hd EXCEPT !.view = RSetLen(@, e.n), !.cur = RMin(@, e.n), !.fill = 0,
                                        !.clean = (e.n = Len_(st) /\ @)]), "set_len")
     [] e.op = "flush" ->
-         V(TRUE, [st EXCEPT !.files = (hd.name :> hd.view) @@ @, !.hd.clean = TRUE], "flush")
+         \* "flush chain down to the underlying writer": an Ok flush has called the backend's flush
+         \* (ncalls = backend calls so far: reads, writes, seeks, flushes)
+         V((Has(e, "ncalls") /\ l > 1 /\ Has(Rec[l - 1], "ncalls") /\ Rec[l - 1].hi = e.hi) => e.ncalls[4] > Rec[l - 1].ncalls[4],
+           [st EXCEPT !.files = (hd.name :> hd.view) @@ @, !.hd.clean = TRUE], "flush-reaches-backend")
     [] e.op = "cf_flush" -> V(TRUE, st, "cf_flush")
     [] e.op = "len" -> V(v = Len_(st), st, "len")
     [] e.op = "fresh_read" ->
@@ -230,7 +233,8 @@ OpStep(e) ==
            relaxed == s.mode = "rw_faults" /\ (s.faulted \/ s.taint # {}) /\ e.op \notin {"fresh_read", "len", "flush"}
            lenok == (Has(e, "len") /\ r.st.hd.open /\ r.st.hd.name \notin r.st.taint) => e.len = RLen(r.st.hd.view)
        IN IF ~r.valid /\ ~relaxed
-          THEN /\ Fail(IF s.mode = "ro_faults" THEN "C12" ELSE IF s.mode = "rw_faults" THEN "C13" ELSE "C06", r.rule, e)
+          THEN /\ Fail(IF r.rule = "flush-reaches-backend" THEN "C13" ELSE IF s.mode = "ro_faults" THEN "C12"
+                       ELSE IF s.mode = "rw_faults" THEN "C13" ELSE "C06", r.rule, e)
                /\ skip' = TRUE /\ UNCHANGED s
           ELSE IF ~lenok
           THEN /\ Fail("C06", "len-not-current", e) /\ skip' = TRUE /\ UNCHANGED s
